@@ -472,6 +472,47 @@ class RuleS(_S):
         return hash(self.text)
 
 
+def _strip_gene(text: str, gid: str) -> str:
+    """Rule text with one gene absent: an `and` that loses a member is false (gone), an `or` keeps its other members."""
+    toks = text.replace("(", " ( ").replace(")", " ) ").split()
+    pos = [0]
+
+    def parse_or():
+        items = [parse_and()]
+        while pos[0] < len(toks) and toks[pos[0]] == "or":
+            pos[0] += 1
+            items.append(parse_and())
+        items = [i for i in items if i is not None]
+        if not items:
+            return None
+        return items[0] if len(items) == 1 else "(" + " or ".join(items) + ")"
+
+    def parse_and():
+        items = [parse_atom()]
+        while pos[0] < len(toks) and toks[pos[0]] == "and":
+            pos[0] += 1
+            items.append(parse_atom())
+        if any(i is None for i in items):
+            return None
+        return items[0] if len(items) == 1 else "(" + " and ".join(items) + ")"
+
+    def parse_atom():
+        t = toks[pos[0]]
+        pos[0] += 1
+        if t == "(":
+            v = parse_or()
+            pos[0] += 1
+            return v
+        return None if t == gid else t
+
+    if not toks:
+        return ""
+    out = parse_or()
+    if out is None:
+        return ""
+    return out[1:-1] if out.startswith("(") and out.endswith(")") and out.count("(") == 1 else out
+
+
 # ------------------------------------------------------------------------------------------------ the world
 class World:
     """Interpreter, stand-in classes and a small model built by the real constructors and adding methods."""
@@ -528,8 +569,15 @@ class World:
             model = kw["model"]
             for g in list(kw["gene_list"]):
                 g = model.genes.get_by_id(g) if isinstance(g, str) else g
-                if object.__getattribute__(g, "__dict__").get("_reaction"):
-                    raise Unknown("remove_genes for a gene that reactions still refer to (rule rewriting is decided under C08)")
+                gd = object.__getattribute__(g, "__dict__")
+                for rxn in list(gd.get("_reaction", ())):
+                    # the documented semantics on the rule text (gene := absent; an `and` that loses a member is gone,
+                    # an `or` keeps the others) and on the links of the reaction
+                    rd = object.__getattribute__(rxn, "__dict__")
+                    old_rule = rd.get("_gpr")
+                    rd["_gpr"] = RuleS(_strip_gene(getattr(old_rule, "text", ""), gd.get("_id")))
+                    rd.get("_genes", set()).discard(g)
+                    gd["_reaction"].discard(rxn)
                 model.genes.remove(g)
                 for grp in list(model.groups):
                     members = object.__getattribute__(grp, "__dict__").get("_members", set())
